@@ -35,6 +35,7 @@ type Report struct {
 	Sites       []Site   `json:"sites"`
 	SyncFiles   []string `json:"sync_rewritten_in"`
 	Unmodelled  []string `json:"unmodelled"` // go statements, channel ops, select, time.Sleep...
+	ChanBrackets int     `json:"channel_statements_bracketed"`
 	MapRanges   int      `json:"map_ranges_rewritten"`
 	OtherRanges int      `json:"uncontrolled_ranges"`
 }
@@ -81,6 +82,25 @@ func isOnceDo(s ast.Stmt) bool {
 	}
 	sel, ok := call.Fun.(*ast.SelectorExpr)
 	return ok && sel.Sel.Name == "Do"
+}
+
+// hasChanOp reports whether n contains a channel send or receive outside function literals.
+func hasChanOp(n ast.Node) bool {
+	found := false
+	ast.Inspect(n, func(c ast.Node) bool {
+		switch x := c.(type) {
+		case *ast.FuncLit:
+			return false
+		case *ast.SendStmt:
+			found = true
+		case *ast.UnaryExpr:
+			if x.Op == token.ARROW {
+				found = true
+			}
+		}
+		return !found
+	})
+	return found
 }
 
 // Library instruments the root package of the scratch copy in dir.
@@ -154,6 +174,24 @@ func Library(dir string) (*Report, error) {
 				pos := fset.Position(s.Pos())
 				rep.Sites = append(rep.Sites, Site{ID: id, File: name, Line: pos.Line, Func: curFunc, Tag: t})
 				edits = append(edits, edit{off(s.Pos()), "zzsimrt.Yield(" + strconv.Itoa(id) + "); "})
+				// A statement that may block in a channel operation hands the token back for its
+				// duration (the operation itself runs for real) and queues for the token afterwards.
+				switch x := s.(type) {
+				case *ast.ExprStmt, *ast.SendStmt, *ast.AssignStmt, *ast.DeclStmt:
+					if hasChanOp(s) {
+						edits = append(edits, edit{off(s.Pos()), "zzsimrt.BeginBlocking(); "})
+						edits = append(edits, edit{off(s.End()), "; zzsimrt.EndBlocking()"})
+						rep.ChanBrackets++
+					}
+				case *ast.SelectStmt:
+					edits = append(edits, edit{off(s.Pos()), "zzsimrt.BeginBlocking(); "})
+					for _, cl := range x.Body.List {
+						if cc, ok := cl.(*ast.CommClause); ok {
+							edits = append(edits, edit{off(cc.Colon) + 1, " zzsimrt.EndBlocking();"})
+						}
+					}
+					rep.ChanBrackets++
+				}
 				walk(s)
 			}
 		}
